@@ -325,6 +325,10 @@ func (g *Gen) cond(depth int) string {
 
 func (g *Gen) branch(depth int) string {
 	r := g.r
+	if g.Bias == "opt" && r.Bool(0.3) {
+		// near misses of the constant-branch shape: a literal followed by more code
+		return kernel.Pick(r, []string{"(1 | tostring)", "(2, 3)", "1 + 1", "(null | not)", "(\"t\" | length)", "[1] | .[0]", "{a: 1} | .a", "(1 | . as $q | $q)", "-(1)", "(true and false)", "1 // 2", "(1 | select(. > 0))", "[]|length"})
+	}
 	if r.Bool(0.4) {
 		return kernel.Pick(r, []string{"1", "2", "null", `"t"`, "true", "false", ".", "empty", "[]", "{}"})
 	}
